@@ -220,7 +220,7 @@ def build(unit, workdir):
                 if not any(a <= mm.start() <= b for a, b in allowed):
                     bad.append("%s:%d" % (rel, S.line_of(mm.start())))
         g.frame_results.append(dict(name=fr["name"], tags=fr.get("tags", []), hits=hits, bad=bad,
-                                    min_hits=fr.get("min_hits", 1)))
+                                    min_hits=fr.get("min_hits", 1), violation=fr.get("violation", False)))
     return g
 
 
@@ -473,9 +473,12 @@ def run_unit(name, workdir, rlimit=None, seed=None, twins=True):
     for fr in g.frame_results:
         oid = "%s/frame#%s" % (name, fr["name"])
         ok = not fr["bad"] and fr["hits"] >= fr["min_hits"]
-        res["obligations"][oid] = dict(tags=[], clause="syntactic frame: %s (hits %d, outside allowed: %s)" % (fr["name"], fr["hits"], fr["bad"]),
-                                       fn="frame", status="discharged" if ok else "undecided", diag=[], lines=[], shim=False, syntactic=True)
-        if not ok:
+        breach = bool(fr["bad"]) and fr.get("violation")
+        res["obligations"][oid] = dict(tags=fr["tags"] if breach else [], clause="syntactic frame: %s (hits %d, outside allowed: %s)" % (fr["name"], fr["hits"], fr["bad"]),
+                                       fn="frame", status="discharged" if ok else ("failed" if breach else "undecided"),
+                                       diag=[dict(message="frame condition breached at %s" % fr["bad"], rendered="", in_fn="frame")] if breach else [],
+                                       lines=[], shim=False, syntactic=True)
+        if not ok and not breach:
             res["undecided"].append("frame check %s failed: %s (hits=%d)" % (fr["name"], fr["bad"], fr["hits"]))
 
     # ---- main Verus run
